@@ -1,6 +1,7 @@
 import YaegiVerif.Model.Extract
-/- What extract/extract.go says today, as read by hand. The extractor re-emits the same record into
-   Generated/C18.lean on every run; `Props.C18.facts_tie` / `source_tie` compare them. -/
+/- What extract/extract.go says today (after the repairs 7677ad0, 2873e96, a2117ce, 87ef90c, eb1f965, 169d4db,
+   246eb1c), as read by hand. The extractor re-emits the same record into Generated/C18.lean on every run;
+   `Props.C18.facts_tie` / `source_tie` compare them. -/
 namespace YaegiVerif.Expected.C18
 open YaegiVerif.Extract
 /-- extract/extract.go: the choices genContent, fixConst and the template make in their text -/
@@ -12,11 +13,11 @@ def facts : Facts :=
      ("*types.Func", "pname", false),
      ("*types.Var", "pname", true)],
     typRhs := ["typ[name] = pname", "wrap[name] = Wrap{prefix + name, methods}"],
-    skips := ["!o.Exported()", "!match", "match", "s := o.Type().(*types.Signature); s.TypeParams().Len() > 0 || s.RecvTypeParams().Len() > 0", "t, ok := o.Type().(*types.Named); ok && t.TypeParams().Len() > 0", "t.NumMethods() == 0 && t.NumEmbeddeds() != 0 => delete(typ, name)", "!f.Exported()"],
+    skips := ["!o.Exported()", "!match", "match", "s := o.Type().(*types.Signature); s.TypeParams().Len() > 0 || s.RecvTypeParams().Len() > 0", "t, ok := o.Type().(*types.Named); ok && t.TypeParams().Len() > 0", "!t.IsMethodSet() => delete(typ, name)", "!f.Exported()"],
     variadicCond := "sign.Variadic() && j == len(args)-1",
     variadicThen := ["at := types.TypeString(v.Type(), qualify)[2:]", "params[j] = args[j] + \" ...\" + at", "args[j] += \"...\""],
     variadicElse := ["params[j] = args[j] + \" \" + types.TypeString(v.Type(), qualify)"],
-    methodStmts := ["f := t.Method(i)", "sign := f.Type().(*types.Signature)", "args := make([]string, sign.Params().Len())", "params := make([]string, len(args))", "range j args", "v := sign.Params().At(j)", "args[j] = v.Name(); args[j] == \"\" => args[j] = fmt.Sprintf(\"a%d\", j)", "arg := \"(\" + strings.Join(args, \", \") + \")\"", "param := \"(\" + strings.Join(params, \", \") + \")\"", "results := make([]string, sign.Results().Len())", "range j results", "v := sign.Results().At(j)", "results[j] = v.Name() + \" \" + types.TypeString(v.Type(), qualify)", "result := \"(\" + strings.Join(results, \", \") + \")\"", "ret := \"\"", "sign.Results().Len() > 0 => ret = \"return\"", "methods = append(methods, Method{f.Name(), param, result, arg, ret})"],
+    methodStmts := ["f := t.Method(i)", "sign := f.Type().(*types.Signature)", "used := map[string]bool{\"W\": true}", "range _ []*types.Tuple{sign.Params(), sign.Results()}", "for j := 0; j < vars.Len(); j++", "used[vars.At(j).Name()] = true", "fresh := func(prefix string, j int) string { name := fmt.Sprintf(\"%s%d\", prefix, j) for used[name] { name += \"_\" } used[name] = true return name }", "args := make([]string, sign.Params().Len())", "params := make([]string, len(args))", "range j args", "v := sign.Params().At(j)", "args[j] = v.Name(); args[j] == \"\" || args[j] == \"_\" || args[j] == \"W\" => args[j] = fresh(\"a\", j)", "arg := \"(\" + strings.Join(args, \", \") + \")\"", "param := \"(\" + strings.Join(params, \", \") + \")\"", "results := make([]string, sign.Results().Len())", "range j results", "v := sign.Results().At(j)", "name := v.Name()", "name == \"W\" => name = fresh(\"r\", j)", "results[j] = name + \" \" + types.TypeString(v.Type(), qualify)", "result := \"(\" + strings.Join(results, \", \") + \")\"", "ret := \"\"", "sign.Results().Len() > 0 => ret = \"return\"", "stringer := false", "f.Name() == \"String\" && sign.Params().Len() == 0 && sign.Results().Len() == 1 => b, ok := sign.Results().At(0).Type().Underlying().(*types.Basic); stringer = ok && b.Kind() == types.String", "methods = append(methods, Method{f.Name(), param, result, arg, ret, stringer})"],
     fixCases := [("String", "STRING"),
      ("Int", "INT"),
      ("Float", "FLOAT"),
@@ -24,8 +25,11 @@ def facts : Facts :=
      ("default", "")],
     fixFloat := ["v := constant.Val(val)", "f, ok := v.(*big.Float)", "if !ok { f = new(big.Float).SetRat(v.(*big.Rat)) }", "tok = \"FLOAT\"", "str = f.Text('g', int(f.Prec()))"],
     fixFormat := "constant.MakeFromLiteral(%q, token.%s, 0) <- str, tok",
-    replaced := ["/", "_", "-", "_", ".", "_", "~", "_"],
-    prefixExpr := "\"_\" + importPath + \"_\"",
+    replaced := [],
+    prefixExpr := "strings.Map(func(r rune) rune { if unicode.IsLetter(r) || unicode.IsDigit(r) { return r } return '_' }, \"_\"+importPath+\"_\")",
+    restrictedCond := "rname := p.Name() + name; restricted[rname] && importPath == p.Name() => pname = rname",
+    usePkg := ["\"UsePkg\": usePkg", "usePkg := len(typ) > 0", "range name, v val => usePkg = usePkg || v.Name == p.Name()+\".\"+name"],
+    fixComplex := ["re := fixConst(name, constant.Real(val), imports)", "im := fixConst(name, constant.Imag(val), imports)", "return fmt.Sprintf(\"constant.BinaryOp(%s, token.ADD, constant.MakeImag(%s))\", re, im)"],
     tmpl := [("addr", "\"{{$key}}\": reflect.ValueOf(&{{$value.Name}}).Elem(),"),
      ("value", "\"{{$key}}\": reflect.ValueOf({{$value.Name}}),"),
      ("type", "\"{{$key}}\": reflect.ValueOf((*{{$value}})(nil)),"),
@@ -35,20 +39,21 @@ def facts : Facts :=
      ("ivalue", "IValue interface{}"),
      ("field", "W{{$m.Name}} func{{$m.Param}} {{$m.Result}}"),
      ("method", "func (W {{$value.Name}}) {{$m.Name}}{{$m.Param}} {{$m.Result}} {"),
-     ("guard", "{{- if eq $m.Name \"String\"}}"),
+     ("guard", "{{- if $m.Stringer}}"),
+     ("importpkg", "{{- if .UsePkg }}"),
      ("call", "{{- $m.Ret}} W.W{{$m.Name}}{{$m.Arg -}}"),
      ("tags", "{{if .BuildTags}}// +build {{.BuildTags}}{{end}}"),
      ("package", "package {{.Dest}}")],
     defaultMinor := 22 }
 /-- fingerprints of the functions (and of the template text) that Model/Extract.lean transcribes -/
 def sourceHashes : List (String × String) :=
-  [("Extractor.genContent", "5c2bf30aa1a92719"),
-   ("fixConst", "8cb1eaf0961cf4e9"),
+  [("Extractor.genContent", "d32c322751a31868"),
+   ("fixConst", "d6d994ecb33dc1e7"),
    ("matchList", "98bb6db90aa91968"),
    ("genBuildTags", "e6a5a5cce1786bd1"),
    ("isInStdlib", "7650dc4b3965edf7"),
    ("GetMinor", "cf33b0802ac7d4b5"),
    ("Extractor.Extract", "373d339939291f24"),
    ("Extractor.importPath", "735ac16472bb922b"),
-   ("const model", "1932271c3afc09d9")]
+   ("const model", "dbd40309a307c2d4")]
 end YaegiVerif.Expected.C18
